@@ -23,6 +23,8 @@ CONSTANTS Operands,     \* set of integer literals
           Pres,         \* subset of {"", "not", "neg"}: prefixes allowed on an operand
           MaxOps,       \* maximal number of binary operators in one expression
           LongOperands, LongOps, LongPres,   \* what an expression with more than two operators is built from
+          GoRemainder,  \* FALSE: the algorithm model takes % as repaired in /repo (ad24364, Python's sign rule);
+                        \* TRUE only in *_known cfgs: Go's truncated remainder, as before the repair
           Emit
 
 VARIABLE e              \* sequence of tokens [op, pre, v]; e[1].op = ""
@@ -139,7 +141,7 @@ ABin(op, a, b) ==
          [] op = "-"  -> I(a.i - b.i)
          [] op = "*"  -> I(a.i * b.i)
          [] op = "//" -> IF b.i = 0 THEN Gar ELSE I(FloorDiv(a.i, b.i))   \* int(math.Floor(float/0)): no error, an arbitrary value
-         [] op = "%"  -> IF b.i = 0 THEN Err ELSE I(PyMod(a.i, b.i))   \* Go-style remainder until the repair ad24364 in /repo; now Python-style
+         [] op = "%"  -> IF b.i = 0 THEN Err ELSE I(IF GoRemainder THEN GoMod(a.i, b.i) ELSE PyMod(a.i, b.i))
          [] op \in CmpOps -> B(Cmp(op, a.i, b.i))
 AUn(op, a) == IF IsErr(a) THEN a
               ELSE IF op = "not" THEN B(~Truthy(a))
@@ -177,7 +179,7 @@ ModSign(s) == LET ts == Split(s, AllOps \ MulOps) IN
 ClassOf(s, py, al) == IF py = al THEN "agree"
                       ELSE IF LoHiLo(s) THEN "lo-hi-lo"
                       ELSE IF ChainCmp(s) THEN "chain-cmp"
-                      ELSE IF ModSign(s) THEN "mod-sign"
+                      ELSE IF GoRemainder /\ ModSign(s) THEN "mod-sign"
                       ELSE "other"
 Class(s) == ClassOf(s, PyEval(s), AEval(s))
 
@@ -201,7 +203,7 @@ Spec == Init /\ [][Next]_vars
 \* property allows.
 Agreement == LET py == PyEval(e)
                  al == AEval(e) IN
-             (~IsErr(al) /\ ~IsErr(py) /\ ~LoHiLo(e) /\ ~ChainCmp(e) /\ ~ModSign(e)) => al = py
+             (~IsErr(al) /\ ~IsErr(py) /\ ~LoHiLo(e) /\ ~ChainCmp(e) /\ ~(GoRemainder /\ ModSign(e))) => al = py
 \* sanity of the transcription: floor division and modulo obey the division identity with Python's sign rule
 ASSUME DivIdentity == \A a \in Operands, b \in Operands \ {0} : /\ a = b * FloorDiv(a, b) + PyMod(a, b)
                                                                 /\ (b > 0 => PyMod(a, b) \in 0..(b - 1))
@@ -223,7 +225,7 @@ Show(v) == IF v.k \in {"err", "gar"} THEN [k |-> v.k] ELSE IF v.k = "bool" THEN 
 \* one pass per state: the relation between the levels, then the case
 CheckAndEmit == LET py == PyEval(e)
                     al == AEval(e) IN
-                /\ (~IsErr(al) /\ ~IsErr(py) /\ ~LoHiLo(e) /\ ~ChainCmp(e) /\ ~ModSign(e)) => al = py
+                /\ (~IsErr(al) /\ ~IsErr(py) /\ ~LoHiLo(e) /\ ~ChainCmp(e) /\ ~(GoRemainder /\ ModSign(e))) => al = py
                 /\ Emit =>
                     PrintT(<<"CASE", ToJson([toks |-> e, expect |-> Show(py), algo |-> Show(al),
                                              cls |-> ClassOf(e, py, al)])>>)
